@@ -11,7 +11,7 @@ THEOREMS = ["C09_mds_shape", "C09_track_table_exact", "C09_slot_count", "C09_vol
             "C09_index_fits_byte", "C09_d19_counterexample_before_fix",
             "C09_reader_sees_operands_partial", "C09_seq_bytes", "C09_full_partial", "C09_nothing_unused_bytes", "fullPartialHyps_sound",
             "C09_writer_run_in_frag", "C09_writer_outputs_in_frag", "C09_small_of_sizes", "C09_small_of_2GiB", "C09_full_partial2", "fullHyps_sound",
-            "ex4_construct", "ex4_hyps"]
+            "ex4_construct", "ex4_hyps", "ex5_run", "ex5_construct", "ex5_hyps"]
 LEVEL = "proof"
 STREAM = "mds.bytes+conv.maps"
 CHUNK = 120
@@ -37,8 +37,9 @@ LEVEL_TEXT = ("Machine-checked over the model of the converter (writer of Model/
               "Byte-level nothing_unused with the exceptions explicit (C09_nothing_unused_bytes). Round 4: every list the writer returns — any track, any conversion state, any budget — is in the "
               "reader fragment Frag (okEv events, the only terminator last, loops balanced: C09_writer_run_in_frag, by an invariant tying the LP/LPF depth of the emitted list to the player's stack, "
               "with D25's repair for drum routines), hence every channel/subroutine list of an export (C09_writer_outputs_in_frag); the 4 GiB format bound follows from a decidable bound on the input "
-              "sizes (C09_small_of_sizes, C09_small_of_2GiB); C09_full_partial2 = C09_full_partial without the fragment hypothesis and with the size bound; its construct hypothesis is met by a song with "
-              "a channel track (ex4_construct, ex4_hyps: the writer unfolded by its equation lemmas).")
+              "sizes (C09_small_of_sizes, C09_small_of_2GiB); C09_full_partial2 = C09_full_partial without the fragment hypothesis and with the size bound; its construct hypothesis is met by songs with "
+              "a channel track (ex4_construct/ex4_hyps: one note; ex5_run/ex5_construct/ex5_hyps: `A [c]2 *100` with a subroutine — the well-founded writer unfolded one runWriter iteration per "
+              "rewrite by the equation lemmas of Proofs/MdsFragEx, states unified by rfl).")
 LEVEL_NOTE = ("Hypothesis PlatformClean: no platform `cmd` injects a raw PAT/INS/PCM/PEG/MTAB opcode (the song names nothing for such an operand). Residual hypotheses of C09_full_partial2: platformFrag (the events a "
               "raw platform `cmd` injects are okEv, no terminators, no LP/LPF — the fragment itself is proved), every stream < 64 KiB (then the exported seq consists of bytes: C09_seq_bytes), sorted "
               "track map, at least one channel track (Spec/MdsFrag.fullHyps, sound by fullHyps_sound), input sizes below 4 GiB - 64 in total (exportSmall) — all EVALUATED by the judge on the model's "
